@@ -158,6 +158,14 @@ PLUS_SIGNED = [
     ([('un', '-'), ('num', '+5')], '-+5'),
     ([('id', 'a'), ('op', '*'), ('num', '+7e+2')], 'a*+7e+2'),
     ([('(', '('), ('num', '+0'), (')', ')'), ('op', '<='), ('num', '+1e-3')], '(+0)<=+1e-3'),
+    # a literal beyond the double range is a number (infinity), not an error
+    ([('num', '1e+309')], '1e+309'),
+    ([('id', 'a'), ('op', '||'), ('id', 'b'), ('op', '<'), ('num', '1e+999'), ('op', '*'), ('num', '2')], 'a || b < 1e+999 * 2'),
+    ([('id', 'mathMin'), ('(', '('), ('id', 'best'), (',', ','), ('num', '17e+400'), (')', ')')], 'mathMin(best, 17e+400)'),
+    # a string literal whose body ends in a lone backslash and that has no later quote of its kind: the closing quote is that last quote
+    ([('str', ("'C:\\tmp\\'", 'C:\\tmp\\'))], "'C:\\tmp\\'"),
+    ([('id', 'stringSplit'), ('(', '('), ('id', 'p'), (',', ','), ('str', ("'\\'", '\\')), (')', ')')], "stringSplit(p, '\\')"),
+    ([('id', 'a'), ('op', '+'), ('id', 'b'), ('op', '*'), ('str', ('"x\\"', 'x\\'))], 'a + b * "x\\"'),
     ([('junk', '+'), ('num', '5')], '+ 5'),
     ([('junk', '+'), ('id', 'a')], '+a'),
     ([('junk', '+'), ('(', '('), ('num', '1'), (')', ')')], '+(1)'),
